@@ -44,7 +44,7 @@ def run(spec, pid, tier, seed, replay=None):
             notes.append(out[-500:])
         checker_cmd += " && lake env leanchecker " + spec["theorems"]
 
-    tally = core.Tally(pid, known, spec.get("only_oracles"))
+    tally = core.Tally(pid, known, spec.get("only_oracles"), spec.get("excluded_classes"))
     if replay:
         req, resp = core.pipeline(pid + ".replay", [core.TGH, "replay"], stdin_path=replay)
         tally.consume("replay", req, resp)
@@ -99,7 +99,7 @@ def run(spec, pid, tier, seed, replay=None):
         # the tie (or a proof obligation) is broken: search wider for a failing input
         found = None
         for extra in range(1, 3 if tier == "quick" else 5):
-            t3 = core.Tally(pid, known, spec.get("only_oracles"))
+            t3 = core.Tally(pid, known, spec.get("only_oracles"), spec.get("excluded_classes"))
             for g in spec["groups"]:
                 req, resp = core.pipeline("%s.%s.s%d" % (pid, g, extra),
                                           [core.TGH, g, "--tier", tier,
@@ -130,6 +130,10 @@ def run(spec, pid, tier, seed, replay=None):
             violation_lines.append("VIOLATION property=%s replay=%s no-failing-input-found" %
                                    (pid, os.path.relpath(p, core.ROOT)))
 
+    # findings identified by an input class only (project-level): still failing iff a generated case of the class failed
+    for k in known:
+        if k.get("status", "open") == "open" and "witness" not in k and tally.known_hits.get(k["class"], 0) > 0:
+            still.append(k)
     for k in still:
         print("KNOWN-FINDING: property=%s %s %s" % (pid, k["id"], k["description"]))
     unlisted_known = [k["id"] for k in known if k.get("status", "open") == "open" and k not in still and "witness" in k]
@@ -147,6 +151,7 @@ def run(spec, pid, tier, seed, replay=None):
         "disagreements_checked": len(tally.disagreements),
         "implementation_oracle_failures_outside_known_classes": len(tally.violations),
         "known_finding_hits": tally.known_hits,
+        "excluded_out_of_domain_hits": tally.excluded_hits,
         "known_findings_replayed": [{"id": k["id"], "still_fails": k in still} for k in known if "witness" in k],
         "known_findings_no_longer_failing": unlisted_known,
         "fixed_entries": fixed,
